@@ -29,7 +29,21 @@ def _table(jdd, den_of):
 
 def _base(kind, case):
     return {"kind": kind, "case": case, "raised": "", "first": [], "second": [], "entry": [],
-            "have_second": False, "have_entry": False, "second_raised": "", "entry_raised": ""}
+            "have_second": False, "have_entry": False, "second_raised": "", "entry_raised": "", "earlier_changed": False}
+
+
+_HELD = []      # the last few loader objects with the table they reported when they were built
+
+
+def _earlier_unchanged(tr):
+    """loaders built earlier in this process still report the table they reported then"""
+    for obj, den_of, was in _HELD:
+        try:
+            now = json.dumps(sorted(_table(obj.jdd, den_of), key=lambda r: r["key"]))
+        except Exception:
+            now = "raised"
+        if now != was:
+            tr["earlier_changed"] = True
 
 
 def _history(tr, build_direct, build_entry, den_of, deterministic=True):
@@ -56,6 +70,12 @@ def _history(tr, build_direct, build_entry, den_of, deterministic=True):
             tr["have_entry"] = True
         except Exception as ex:
             tr["entry_raised"] = type(ex).__name__
+    _earlier_unchanged(tr)
+    try:
+        _HELD.append((obj, den_of, json.dumps(sorted(_table(obj.jdd, den_of), key=lambda r: r["key"]))))
+        del _HELD[:-3]
+    except Exception:
+        pass
     return obj
 
 
@@ -331,8 +351,12 @@ RUNNERS = {"manual": run_manual, "empirical": run_empirical, "function": run_fun
            "delta": run_split, "cover": run_cover}
 
 
-def execute(case):
+def _execute(case):
     return RUNNERS[case["kind"]](case)
+
+
+from ..history import with_prior
+execute = with_prior(_execute, _HELD, lambda tr: tr.get("earlier_changed"), depth=3)
 
 
 def key_fn(tr, v):
